@@ -21,7 +21,7 @@ INVARIANTS = ("NothingBadPassedOn NothingGoodLost WholeResponseFailure SendJoinO
 
 def cfg_text(kind, start, ver, maxfree, maxfaults, pairfrom, sim, simfaults):
     return ("SPECIFICATION GSpec\nCONSTANTS\n  Start = %d\n  Ver = \"%s\"\n  MaxFree = %d\n  ForkFrom = 5\n"
-            "  TSChoices = {1}\n  IdDesc = FALSE\n  Dishonest = FALSE\n  MaxBad = 0\n  Kind = \"%s\"\n  MaxFaults = %d\n  PairFrom = %d\n  Sim = %s\n"
+            "  TSChoices = {1}\n  IdDesc = FALSE\n  Dishonest = FALSE\n  MaxBad = 0\n  Addl = {}\n  Kind = \"%s\"\n  MaxFaults = %d\n  PairFrom = %d\n  Sim = %s\n"
             "  SimFaults = %d\nINVARIANTS %s\nCHECK_DEADLOCK FALSE\n"
             % (start, ver, maxfree, kind, maxfaults, pairfrom, "TRUE" if sim else "FALSE", simfaults, INVARIANTS))
 
